@@ -19,6 +19,9 @@ type Pred struct {
 	SameKey bool
 	Offset  int // offset of the packet in the client's byte stream
 	WireLen int
+	// Lost: the transport refused the write of this packet's reply outright (set by the
+	// oracle from the history): nothing of that reply may be on the wire
+	Lost bool
 	// expected reply
 	Reply    bool
 	ReplySeq uint8
